@@ -1723,6 +1723,9 @@ impl Vm {
         }
 
         let created_upvalue = Root::new(RefCell::new(ObjUpvalue::new(loc_addr as *mut _)));
+        if let Some(fiber) = self.fiber.as_ref() {
+            created_upvalue.borrow_mut().set_owner(fiber.as_gc());
+        }
         if let Some(uv) = prev_upvalue {
             uv.borrow_mut().next = Some(created_upvalue.as_gc());
         } else {
